@@ -20,7 +20,7 @@ use crate::{
 
 #[derive(Clone, Debug, PartialEq)]
 enum Ev {
-    Accept { worker: usize, n: u64, avail_hi: u64 },
+    Accept { worker: usize, n: u64, avail_lo: u64, avail_hi: u64 },
     Success { worker: usize, n: u64 },
     Fail { worker: usize, n: u64 },
     Disconnect { worker: usize, n: u64 },
@@ -33,8 +33,14 @@ fn range(hi: u64) -> BlockStoreState {
     BlockStoreState { first: BlockNumber(0), last: Some(Last::PreGenesis(BlockNumber(hi))) }
 }
 
+fn range2(lo: u64, hi: u64) -> BlockStoreState {
+    BlockStoreState { first: BlockNumber(lo), last: Some(Last::PreGenesis(BlockNumber(hi))) }
+}
+
 struct Shared {
     log: Vec<Ev>,
+    /// first block each peer connection announces (a peer that pruned its history starts above 0)
+    avail_lo: [u64; 2],
     /// is the worker currently parked inside accept_block (alive and idle)?
     waiting: [bool; 2],
     alive: [bool; 2],
@@ -42,7 +48,7 @@ struct Shared {
 }
 
 fn run_once(ch: &Ch, scenario: u32) -> ExecResult {
-    let sh = Arc::new(Mutex::new(Shared { log: vec![], waiting: [false; 2], alive: [true; 2], avail: [5, 9] }));
+    let sh = Arc::new(Mutex::new(Shared { log: vec![], avail_lo: [0, 0], waiting: [false; 2], alive: [true; 2], avail: [5, 9] }));
     let sh2 = sh.clone();
     // Rc is not Send; environment choices are made through a Send wrapper used only on this thread
     struct SendCh(Ch);
@@ -55,17 +61,31 @@ fn run_once(ch: &Ch, scenario: u32) -> ExecResult {
         let clock = ctx::ManualClock::new();
         let root = ctx::test_root(&clock);
         let q = VFetchQueue::default();
-        let a0 = sync::watch::channel(range(5)).0;
-        let a1 = sync::watch::channel(range(if scenario == 2 { 5 } else { 9 })).0;
+        let a0 = sync::watch::channel(if scenario == 3 { range(9) } else { range(5) }).0;
+        let a1 = sync::watch::channel(match scenario {
+            2 => range(5),
+            3 => range2(6, 9), // pruned peer: does not have blocks below 6
+            _ => range(9),
+        })
+        .0;
         if scenario == 2 {
             sh2.lock().unwrap().avail = [5, 5];
+        }
+        if scenario == 3 {
+            let mut g = sh2.lock().unwrap();
+            g.avail = [9, 9];
+            g.avail_lo = [0, 6];
         }
         let (q, a0, a1, sh, root, sch, clock) = (&q, &a0, &a1, &sh2, &root, &sch, &clock);
         let idle_ref = &idle;
         let fut = async move {
             scope::run!(root, |ctx, s| async move {
                 // requesters
-                let wanted: &[u64] = if scenario == 2 { &[5, 6] } else { &[3, 5, 7] };
+                let wanted: &[u64] = match scenario {
+                    2 => &[5, 6],
+                    3 => &[5, 8],
+                    _ => &[3, 5, 7],
+                };
                 for &n in wanted {
                     s.spawn(async move {
                         let c;
@@ -92,8 +112,11 @@ fn run_once(ch: &Ch, scenario: u32) -> ExecResult {
                             let r = q.accept_block(ctx, &mut sub).await;
                             sh.lock().unwrap().waiting[wi] = false;
                             let Ok((n, comp)) = r else { break };
-                            let hi = sh.lock().unwrap().avail[wi];
-                            sh.lock().unwrap().log.push(Ev::Accept { worker: wi, n: n.0, avail_hi: hi });
+                            let (lo, hi) = {
+                                let g = sh.lock().unwrap();
+                                (g.avail_lo[wi], g.avail[wi])
+                            };
+                            sh.lock().unwrap().log.push(Ev::Accept { worker: wi, n: n.0, avail_lo: lo, avail_hi: hi });
                             sched::yield_now().await;
                             match env_choose(&sch.0, 3) {
                                 0 => {
@@ -127,7 +150,7 @@ fn run_once(ch: &Ch, scenario: u32) -> ExecResult {
                             let outstanding = q.current_blocks();
                             if let Some(lowest) = outstanding.first() {
                                 for wi in 0..2 {
-                                    if g.alive[wi] && g.waiting[wi] && *lowest <= g.avail[wi] {
+                                    if g.alive[wi] && g.waiting[wi] && g.avail_lo[wi] <= *lowest && *lowest <= g.avail[wi] {
                                         drop(g);
                                         sh.lock().unwrap().log.push(Ev::Grow { worker: 99, hi: *lowest });
                                         return Err(anyhow::format_err!("LOST-WAKEUP"));
@@ -176,9 +199,9 @@ fn run_once(ch: &Ch, scenario: u32) -> ExecResult {
     let mut succeeded: std::collections::BTreeSet<u64> = Default::default();
     for e in &log {
         match e {
-            Ev::Accept { worker, n, avail_hi } => {
-                if n > avail_hi {
-                    violation.get_or_insert(format!("block {n} was handed to peer connection {worker} which has announced only blocks 0..={avail_hi}; events {log:?}"));
+            Ev::Accept { worker, n, avail_lo, avail_hi } => {
+                if n > avail_hi || n < avail_lo {
+                    violation.get_or_insert(format!("block {n} was handed to peer connection {worker} which has announced only blocks {avail_lo}..={avail_hi}; events {log:?}"));
                 }
                 if let Some(o) = held.get(n) {
                     violation.get_or_insert(format!("block {n} was handed to peer connection {worker} while connection {o} still holds it; events {log:?}"));
@@ -202,7 +225,11 @@ fn run_once(ch: &Ch, scenario: u32) -> ExecResult {
     }
     // a failed / disconnected request must be outstanding again unless it was re-accepted or cancelled
     let fin = final_blocks.lock().unwrap().clone();
-    let wanted: &[u64] = if scenario == 2 { &[5, 6] } else { &[3, 5, 7] };
+    let wanted: &[u64] = match scenario {
+        2 => &[5, 6],
+        3 => &[5, 8],
+        _ => &[3, 5, 7],
+    };
     if stuck.is_none() {
         for n in wanted {
             let ok = log.iter().any(|e| matches!(e, Ev::RequestOk { n: m } if m == n));
@@ -248,8 +275,8 @@ pub fn run(args: &Args) -> Report {
     let mut stats = vec![];
     let mut capped = false;
     let mut fails = 0;
-    for sc in [1u32, 2] {
-        let cfg = ExploreCfg::new(&format!("fetch-queue[scenario {sc}]"), bound, budget.saturating_sub(t0.elapsed()) / (3 - sc));
+    for sc in [3u32, 1, 2] {
+        let cfg = ExploreCfg::new(&format!("fetch-queue[scenario {sc}]"), bound, budget.saturating_sub(t0.elapsed()) / if sc == 3 { 3 } else { 3 - sc });
         let st = explore(&cfg, |ch| run_once(ch, sc));
         execs += st.execs;
         points += st.choice_points;
@@ -273,6 +300,7 @@ pub fn run(args: &Args) -> Report {
         "samples": [
             {"scenario": 1, "case": "requests for blocks 3,5,7 (7 with a deadline), peer 0 announces 0..5 then 0..9, peer 1 announces 0..9; every accepted call succeeds / fails / disconnects by environment choice"},
             {"scenario": 2, "case": "requests 5 and 6, both peers announce 0..5, peer 0 later 0..6"},
+            {"scenario": 3, "case": "requests 5 and 8, peer 0 announces 0..9, peer 1 has pruned its history and announces 6..9: a failed call for 5 is re-queued while peer 1 is about to take 8"},
             {"scenario": "extreme ranges", "case": "one peer announcing {first, last} over {0,1,2,2^63-1,2^64-2,2^64-1} (PreGenesis and FinalV2 ends), one wanted block from the same set: accepted iff first <= n <= last"},
         ],
         "rule": "a state is one complete execution (schedule + environment answers) of the driver around the real fetch::Queue; all executions within the deviation bound; distinct = distinct event logs",
